@@ -74,7 +74,13 @@ impl<P: FwProp> Engine for FwEngine<P> {
     fn known_finding(&self, v: &Violation) -> Option<&'static str> {
         self.0.known_finding(v)
     }
-    fn known_finding_crash(&self, _k: u64, seed: u64, tier: Tier, _kind: &str) -> Option<&'static str> {
+    fn known_finding_crash(
+        &self,
+        _k: u64,
+        seed: u64,
+        tier: Tier,
+        _kind: &str,
+    ) -> Option<&'static str> {
         self.0.known_finding_crash(seed, tier)
     }
 }
@@ -183,7 +189,10 @@ impl Monitor for C01Mon {
             .filter(|r| matches!(r, Rec::Deliver { .. }))
             .count() as u64;
         let bound = 8 * (e + 1) * (m + 1);
-        stats.max("steps_per_bound_permille", steps * 1000 / ((e + 1) * (m + 1)));
+        stats.max(
+            "steps_per_bound_permille",
+            steps * 1000 / ((e + 1) * (m + 1)),
+        );
         stats.max("rng_words_per_call", out.words);
         // probes
         let mlen = case.machines.len() as u64;
@@ -277,7 +286,9 @@ fn has_binomial_inversion(m: &Machine) -> bool {
                 ds.push(duration);
                 ds.extend(limit);
             }
-            Some(Action::UpdateTimer { duration, limit, .. }) => {
+            Some(Action::UpdateTimer {
+                duration, limit, ..
+            }) => {
                 ds.push(duration);
                 ds.extend(limit);
             }
@@ -315,6 +326,7 @@ impl FwProp for C01 {
             real_components: FW_REAL.to_vec(),
             stubbed_components: FW_STUB.to_vec(),
             totality: true,
+            cpu_limit_s: crate::sup::CASE_CPU_LIMIT_S,
             exhaustive: false,
         }
     }
@@ -393,7 +405,10 @@ impl Monitor for C04Mon {
         if m == 0 && !out.actions.is_empty() {
             return Some((
                 "action-without-machines".into(),
-                format!("framework without machines returned {}", acts_short(&out.actions)),
+                format!(
+                    "framework without machines returned {}",
+                    acts_short(&out.actions)
+                ),
             ));
         }
         let mut seen = vec![false; m];
@@ -407,7 +422,11 @@ impl Monitor for C04Mon {
             if seen[a.machine] {
                 return Some((
                     "two-actions-one-machine".into(),
-                    format!("machine {} named twice in {}", a.machine, acts_short(&out.actions)),
+                    format!(
+                        "machine {} named twice in {}",
+                        a.machine,
+                        acts_short(&out.actions)
+                    ),
                 ));
             }
             seen[a.machine] = true;
@@ -427,10 +446,7 @@ impl Monitor for C04Mon {
                 ));
             }
             if a.timeout_ns > DAY_NS || a.duration_ns > DAY_NS {
-                return Some((
-                    "over-24h".into(),
-                    format!("{} exceeds 24 hours", a.short()),
-                ));
+                return Some(("over-24h".into(), format!("{} exceeds 24 hours", a.short())));
             }
             if a.timeout_ns == DAY_NS || a.duration_ns == DAY_NS {
                 self.saw_clamp = true;
@@ -482,6 +498,7 @@ impl FwProp for C04 {
             real_components: FW_REAL.to_vec(),
             stubbed_components: FW_STUB.to_vec(),
             totality: false,
+            cpu_limit_s: crate::sup::CASE_CPU_LIMIT_S,
             exhaustive: false,
         }
     }
